@@ -1,19 +1,693 @@
-// Package c11: STUB — property C11 is not built yet.
+// Package c11: gRPC reframing (h2/grpc adapter + emitter) under DATA fragmentation and compression.
+//
+// The real pipeline adapter -> pass-through grpc.Processor -> emitter -> sink is built with
+// grpc.AsStreamProcessorFactory and the verif hook h2.VerifNewProcessors (recording sinks).
+// Every op is one h2.Processor call on the c->s or s->c adapter; the observation is the ordered
+// list of calls seen by the recording processor and by the recording sink.
 package c11
 
-import "verif/harness/internal/core"
+import (
+	"bytes"
+	"compress/flate"
+	"compress/gzip"
+	"fmt"
+	"io"
+	"net/url"
+	"strconv"
+	"strings"
+
+	"github.com/golang/snappy"
+	"github.com/google/martian/v3/h2"
+	mgrpc "github.com/google/martian/v3/h2/grpc"
+	"golang.org/x/net/http2"
+	"golang.org/x/net/http2/hpack"
+
+	"verif/harness/internal/core"
+)
 
 type P struct{}
 
 func init() { core.Register(P{}) }
 
-func (P) ID() string   { return "C11" }
-func (P) Rule() string { return "stub" }
-func (P) Gen(r *core.Rand, tier string, emit func([]string)) {}
-func (P) NewExec() core.Exec                                   { return ex{} }
-func (P) Nontrivial(ops []string, impl []string) bool         { return false }
+func (P) ID() string { return "C11" }
+func (P) Rule() string {
+	return "case = one bidirectional stream built by grpc.AsStreamProcessorFactory over recording sinks: HEADERS (content-type, grpc-encoding " +
+		"identity/gzip/deflate/snappy), then the length-prefixed byte stream of 0..n messages (empty..1MiB, compressed flag 0/1, sender's own " +
+		"compression level) cut into DATA frames - every one of the 2^(n-1) cut sets for short streams, all 1- and sampled 2-cut sets for medium, " +
+		"random cuts for long - with END_STREAM on the last DATA frame, on a separate empty DATA frame or on trailers, in either or both directions; " +
+		"plus malformed streams (truncated, bad flag bytes, undecodable payloads, unknown encodings), non-gRPC streams and PRIORITY/RST/PUSH frames; " +
+		"distinct by hash of the op list; non-trivial when a gRPC byte stream carrying at least one message arrives in at least two DATA frames, " +
+		"or a non-gRPC stream carries at least one DATA frame"
+}
 
-type ex struct{}
+func (P) Nontrivial(ops []string, impl []string) bool {
+	data, pm, sdOnly := 0, 0, 0
+	for i, o := range ops {
+		if strings.HasPrefix(o, "data ") {
+			data++
+			if i < len(impl) {
+				if strings.Contains(impl[i], "pm:") {
+					pm++
+				} else if strings.HasPrefix(impl[i], "sd:") {
+					sdOnly++
+				}
+			}
+		}
+	}
+	return (pm >= 1 && data >= 2) || (pm == 0 && sdOnly >= 1)
+}
 
-func (ex) Do(op string) core.Result { return core.Result{Impl: "bad-op"} }
-func (ex) Close()                   {}
+// ---------------------------------------------------------------------------------------------
+// real codecs, used (a) by the oracle's independent reader and (b) to validate the dec/cmp table
+// lines that stand for the compression library in the model.
+
+func realDecode(enc string, p []byte) ([]byte, error) {
+	switch enc {
+	case "identity":
+		return p, nil
+	case "gzip":
+		r, err := gzip.NewReader(bytes.NewReader(p))
+		if err != nil {
+			return nil, err
+		}
+		return io.ReadAll(r)
+	case "deflate":
+		return io.ReadAll(flate.NewReader(bytes.NewReader(p)))
+	case "snappy":
+		return io.ReadAll(snappy.NewReader(bytes.NewReader(p)))
+	}
+	return nil, fmt.Errorf("unknown encoding %q", enc)
+}
+
+// realEncode compresses as a gRPC peer would; level 0 = the library default (what the emitter
+// is expected to produce), other levels stand for senders with their own settings.
+func realEncode(enc string, p []byte, level int) []byte {
+	var buf bytes.Buffer
+	switch enc {
+	case "identity":
+		return p
+	case "gzip":
+		l := gzip.DefaultCompression
+		if level != 0 {
+			l = level
+		}
+		w, _ := gzip.NewWriterLevel(&buf, l)
+		w.Write(p)
+		w.Close()
+	case "deflate":
+		l := flate.DefaultCompression
+		if level != 0 {
+			l = level
+		}
+		w, _ := flate.NewWriter(&buf, l)
+		w.Write(p)
+		w.Close()
+	case "snappy":
+		if level != 0 {
+			// unbuffered writer: one chunk per Write, a different but valid framing of the same data
+			w := snappy.NewWriter(&buf)
+			half := len(p) / 2
+			w.Write(p[:half])
+			w.Write(p[half:])
+		} else {
+			w := snappy.NewBufferedWriter(&buf)
+			w.Write(p)
+			w.Close()
+		}
+	}
+	return buf.Bytes()
+}
+
+// ---------------------------------------------------------------------------------------------
+// independent gRPC length-prefixed-message reader
+
+type wmsg struct {
+	flag    byte
+	payload []byte
+}
+
+func parseFrames(b []byte) (ms []wmsg, rest []byte) {
+	for len(b) >= 5 {
+		n := int(b[1])<<24 | int(b[2])<<16 | int(b[3])<<8 | int(b[4])
+		if len(b)-5 < n {
+			break
+		}
+		ms = append(ms, wmsg{b[0], b[5 : 5+n]})
+		b = b[5+n:]
+	}
+	return ms, b
+}
+
+func wire(flag byte, payload []byte) []byte {
+	n := len(payload)
+	out := []byte{flag, byte(n >> 24), byte(n >> 16), byte(n >> 8), byte(n)}
+	return append(out, payload...)
+}
+
+// ---------------------------------------------------------------------------------------------
+// canonical rendering (kept in step with Drv/C11.lean)
+
+func fnv(b []byte) uint64 {
+	h := uint64(14695981039346656037)
+	for _, x := range b {
+		h = (h ^ uint64(x)) * 1099511628211
+	}
+	return h
+}
+
+func showBytes(b []byte) string {
+	if len(b) <= 48 {
+		return core.Hex(b)
+	}
+	return fmt.Sprintf("#%d:%d", len(b), fnv(b))
+}
+
+type hf struct{ n, v string }
+
+func showHdrs(hs []hf) string {
+	if len(hs) == 0 {
+		return "-"
+	}
+	var parts []string
+	for _, h := range hs {
+		parts = append(parts, core.HexS(h.n)+"="+core.HexS(h.v))
+	}
+	return strings.Join(parts, ",")
+}
+
+func parseHdrs(s string) ([]hf, bool) {
+	if s == "-" {
+		return nil, true
+	}
+	var out []hf
+	for _, p := range strings.Split(s, ",") {
+		nv := strings.Split(p, "=")
+		if len(nv) != 2 {
+			return nil, false
+		}
+		n, ok1 := core.Unhex(nv[0])
+		v, ok2 := core.Unhex(nv[1])
+		if !ok1 || !ok2 {
+			return nil, false
+		}
+		out = append(out, hf{string(n), string(v)})
+	}
+	return out, true
+}
+
+func b01(b bool) string {
+	if b {
+		return "1"
+	}
+	return "0"
+}
+
+// ---------------------------------------------------------------------------------------------
+// recording processors
+
+type shownMsg struct {
+	data []byte
+	es   bool
+}
+type sinkEv struct {
+	kind byte // 'd' data, 'h' header, 'o' other
+	data []byte
+	es   bool
+}
+
+type dirState struct {
+	// what the real code did
+	shown []shownMsg
+	sink  []sinkEv
+	// the oracle's own reading of the inputs
+	in        []byte
+	lastEmpty bool // the last DATA frame fed was empty
+	sinkFrom  int  // sink events before this index predate the gRPC announcement (forwarded as they are)
+	enc       string
+	encKnown  bool
+	dead      bool
+}
+
+type ex struct {
+	cur       []string
+	d         [2]*dirState
+	proc      [2]h2.Processor
+	grpc      bool // oracle's reading: a content-type: application/grpc header field has been seen
+	reportF11 bool
+}
+
+type sink struct {
+	e   *ex
+	dir int
+}
+
+func conv(hs []hpack.HeaderField) []hf {
+	var out []hf
+	for _, h := range hs {
+		out = append(out, hf{h.Name, h.Value})
+	}
+	return out
+}
+
+func (s *sink) Data(data []byte, es bool) error {
+	c := append([]byte{}, data...)
+	s.e.cur = append(s.e.cur, "sd:"+b01(es)+":"+showBytes(c))
+	s.e.d[s.dir].sink = append(s.e.d[s.dir].sink, sinkEv{'d', c, es})
+	return nil
+}
+func (s *sink) Header(hs []hpack.HeaderField, es bool, _ http2.PriorityParam) error {
+	s.e.cur = append(s.e.cur, "sh:"+b01(es)+":"+showHdrs(conv(hs)))
+	s.e.d[s.dir].sink = append(s.e.d[s.dir].sink, sinkEv{'h', []byte(showHdrs(conv(hs))), es})
+	return nil
+}
+func (s *sink) Priority(http2.PriorityParam) error {
+	s.e.cur = append(s.e.cur, "sp")
+	s.e.d[s.dir].sink = append(s.e.d[s.dir].sink, sinkEv{'o', nil, false})
+	return nil
+}
+func (s *sink) RSTStream(c http2.ErrCode) error {
+	s.e.cur = append(s.e.cur, "sr:"+strconv.Itoa(int(c)))
+	s.e.d[s.dir].sink = append(s.e.d[s.dir].sink, sinkEv{'o', nil, false})
+	return nil
+}
+func (s *sink) PushPromise(id uint32, hs []hpack.HeaderField) error {
+	s.e.cur = append(s.e.cur, "su:"+strconv.Itoa(int(id))+":"+showHdrs(conv(hs)))
+	s.e.d[s.dir].sink = append(s.e.d[s.dir].sink, sinkEv{'o', nil, false})
+	return nil
+}
+
+// pass is the pass-through grpc.Processor: records, then forwards to the emitter.
+type pass struct {
+	e    *ex
+	dir  int
+	next mgrpc.Processor
+}
+
+func (p *pass) Header(hs []hpack.HeaderField, es bool, pr http2.PriorityParam) error {
+	p.e.cur = append(p.e.cur, "ph:"+b01(es)+":"+showHdrs(conv(hs)))
+	return p.next.Header(hs, es, pr)
+}
+func (p *pass) Message(data []byte, es bool) error {
+	c := append([]byte{}, data...)
+	p.e.cur = append(p.e.cur, "pm:"+b01(es)+":"+showBytes(c))
+	p.e.d[p.dir].shown = append(p.e.d[p.dir].shown, shownMsg{c, es})
+	return p.next.Message(data, es)
+}
+
+func (P) NewExec() core.Exec {
+	e := &ex{}
+	e.d[0], e.d[1] = &dirState{enc: "identity", encKnown: true}, &dirState{enc: "identity", encKnown: true}
+	sinks := h2.VerifNewProcessors(&sink{e, 0}, &sink{e, 1})
+	f := mgrpc.AsStreamProcessorFactory(func(_ *url.URL, server, client mgrpc.Processor) (mgrpc.Processor, mgrpc.Processor) {
+		return &pass{e, 0, server}, &pass{e, 1, client}
+	})
+	u, _ := url.Parse("https://example.com/svc/Method")
+	e.proc[0], e.proc[1] = f(u, sinks)
+	return e
+}
+func (e *ex) Close() {}
+
+func dirOf(s string) int {
+	switch s {
+	case "c":
+		return 0
+	case "s":
+		return 1
+	}
+	return -1
+}
+
+func errKind(err error) string {
+	s := err.Error()
+	switch {
+	case strings.Contains(s, "unrecognized grpc-encoding"):
+		return "encoding"
+	case strings.Contains(s, "gunzipping"), strings.Contains(s, "deflating"), strings.Contains(s, "uncompressing snappy"):
+		return "decompress"
+	}
+	return "other"
+}
+
+func (e *ex) line() string {
+	if len(e.cur) == 0 {
+		return "-"
+	}
+	return strings.Join(e.cur, " ")
+}
+
+func (e *ex) Do(op string) core.Result {
+	t := strings.Fields(op)
+	bad := core.Result{Impl: "bad-op"}
+	if len(t) == 0 {
+		return bad
+	}
+	e.cur = nil
+	switch t[0] {
+	case "report-known":
+		e.reportF11 = true
+		return core.Result{Impl: "ok", SkipModel: true}
+	case "dec": // dec <enc> <wire> <plain|!> : the real reader maps wire to plain (or fails)
+		if len(t) != 4 {
+			return bad
+		}
+		w, ok := core.Unhex(t[2])
+		if !ok {
+			return bad
+		}
+		got, err := realDecode(t[1], w)
+		if t[3] == "!" {
+			if err == nil {
+				return core.Result{Impl: "table-mismatch: decodes"}
+			}
+			return core.Result{Impl: "ok"}
+		}
+		p, ok := core.Unhex(t[3])
+		if !ok || err != nil || !bytes.Equal(got, p) {
+			return core.Result{Impl: "table-mismatch"}
+		}
+		return core.Result{Impl: "ok"}
+	case "cmp": // cmp <enc> <plain> <wire> : the library's default writer maps plain to wire
+		if len(t) != 4 {
+			return bad
+		}
+		p, ok1 := core.Unhex(t[2])
+		w, ok2 := core.Unhex(t[3])
+		if !ok1 || !ok2 || !bytes.Equal(realEncode(t[1], p, 0), w) {
+			return core.Result{Impl: "table-mismatch"}
+		}
+		return core.Result{Impl: "ok"}
+	case "hdr":
+		if len(t) != 4 || dirOf(t[1]) < 0 || (t[2] != "0" && t[2] != "1") {
+			return bad
+		}
+		hs, ok := parseHdrs(t[3])
+		if !ok {
+			return bad
+		}
+		return e.header(dirOf(t[1]), hs, t[2] == "1")
+	case "data":
+		if len(t) != 4 || dirOf(t[1]) < 0 || (t[2] != "0" && t[2] != "1") {
+			return bad
+		}
+		b, ok := core.Unhex(t[3])
+		if !ok {
+			return bad
+		}
+		return e.data(dirOf(t[1]), b, t[2] == "1")
+	case "prio":
+		if len(t) != 2 || dirOf(t[1]) < 0 {
+			return bad
+		}
+		err := e.proc[dirOf(t[1])].Priority(http2.PriorityParam{StreamDep: 3, Weight: 7})
+		return e.other(err, "sp")
+	case "rst":
+		if len(t) != 3 || dirOf(t[1]) < 0 {
+			return bad
+		}
+		c, err := strconv.Atoi(t[2])
+		if err != nil || c < 0 {
+			return bad
+		}
+		return e.other(e.proc[dirOf(t[1])].RSTStream(http2.ErrCode(c)), "sr:"+strconv.Itoa(c))
+	case "push":
+		if len(t) != 4 || dirOf(t[1]) < 0 {
+			return bad
+		}
+		id, err := strconv.Atoi(t[2])
+		hs, ok := parseHdrs(t[3])
+		if err != nil || id < 0 || !ok {
+			return bad
+		}
+		var hh []hpack.HeaderField
+		for _, h := range hs {
+			hh = append(hh, hpack.HeaderField{Name: h.n, Value: h.v})
+		}
+		return e.other(e.proc[dirOf(t[1])].PushPromise(uint32(id), hh), "su:"+strconv.Itoa(id)+":"+showHdrs(hs))
+	}
+	return bad
+}
+
+// PRIORITY / RST_STREAM / PUSH_PROMISE: always forwarded as they are, gRPC or not.
+func (e *ex) other(err error, want string) core.Result {
+	if err != nil {
+		e.cur = append(e.cur, "err:"+errKind(err))
+	}
+	r := core.Result{Impl: e.line()}
+	if r.Impl != want {
+		r.Fail = fmt.Sprintf("frame not forwarded untouched: sink saw %q, want %q", r.Impl, want)
+		r.Sig = "c11:other-frame-modified"
+	}
+	return r
+}
+
+func (e *ex) header(dir int, hs []hf, es bool) core.Result {
+	d := e.d[dir]
+	var hh []hpack.HeaderField
+	for _, h := range hs {
+		hh = append(hh, hpack.HeaderField{Name: h.n, Value: h.v})
+	}
+	// the oracle's own reading of the header block
+	for _, h := range hs {
+		if h.n == "content-type" && h.v == "application/grpc" && !e.grpc {
+			e.grpc = true
+			e.d[0].sinkFrom, e.d[1].sinkFrom = len(e.d[0].sink), len(e.d[1].sink)
+		}
+	}
+	if e.grpc {
+		for _, h := range hs {
+			if h.n == "grpc-encoding" {
+				switch h.v {
+				case "identity", "gzip", "deflate", "snappy":
+					d.enc = h.v
+				default:
+					d.encKnown = false
+				}
+			}
+		}
+	}
+	if d.dead {
+		return core.Result{Impl: "out-of-model", SkipModel: true}
+	}
+	err := e.proc[dir].Header(hh, es, http2.PriorityParam{})
+	if err != nil {
+		e.cur = append(e.cur, "err:"+errKind(err))
+		d.dead = true
+	}
+	r := core.Result{Impl: e.line()}
+	want := "sh:" + b01(es) + ":" + showHdrs(hs)
+	if !e.grpc {
+		core.Count("hdr:non-grpc")
+		if r.Impl != want {
+			r.Fail = fmt.Sprintf("non-gRPC HEADERS not forwarded untouched: %q, want %q", r.Impl, want)
+			r.Sig = "c11:non-grpc-modified"
+		}
+		return r
+	}
+	core.Count("hdr:grpc")
+	if err == nil && d.encKnown {
+		// a gRPC header block reaches the processor and then the sink, unchanged
+		if r.Impl != "ph:"+b01(es)+":"+showHdrs(hs)+" "+want {
+			r.Fail = fmt.Sprintf("gRPC HEADERS changed on the way: %q", r.Impl)
+			r.Sig = "c11:grpc-header-modified"
+			return r
+		}
+	}
+	if es && err == nil {
+		core.Count("eos:on-headers")
+		if f, sig := e.judgeEnd(dir, false); f != "" {
+			r.Fail, r.Sig = f, sig
+		}
+	}
+	return r
+}
+
+func (e *ex) data(dir int, b []byte, es bool) core.Result {
+	d := e.d[dir]
+	if d.dead {
+		return core.Result{Impl: "out-of-model", SkipModel: true}
+	}
+	if e.grpc { // the oracle's reading: only DATA of a stream already announced as gRPC is gRPC
+		d.in = append(d.in, b...)
+	}
+	d.lastEmpty = len(b) == 0
+	err := e.proc[dir].Data(append([]byte{}, b...), es)
+	if err != nil {
+		e.cur = append(e.cur, "err:"+errKind(err))
+		d.dead = true
+		core.Count("data:error:" + errKind(err))
+	}
+	r := core.Result{Impl: e.line()}
+	if !e.grpc {
+		core.Count("data:non-grpc")
+		want := "sd:" + b01(es) + ":" + showBytes(b)
+		if r.Impl != want {
+			r.Fail = fmt.Sprintf("non-gRPC DATA not forwarded untouched: %q, want %q", trunc(r.Impl), trunc(want))
+			r.Sig = "c11:non-grpc-modified"
+		}
+		return r
+	}
+	core.Count("data:grpc")
+	if len(b) == 0 {
+		core.Count("data:grpc:empty-frame")
+	}
+	if es && err == nil {
+		if len(b) == 0 {
+			core.Count("eos:on-empty-data")
+		} else {
+			core.Count("eos:on-last-data")
+		}
+		if f, sig := e.judgeEnd(dir, true); f != "" {
+			r.Fail, r.Sig = f, sig
+		}
+	}
+	return r
+}
+
+func trunc(s string) string {
+	if len(s) > 160 {
+		return s[:160] + "…"
+	}
+	return s
+}
+
+// judgeEnd is the property, stated over the observations of one direction whose END_STREAM has
+// just been delivered: with M = the messages an independent reader finds in the concatenation of
+// the DATA payloads fed (decoded with the real library under the negotiated encoding),
+//
+//	(1) the processor was shown exactly M (decompressed), end-of-stream on no call but the last;
+//	(2) the sink's DATA payloads, concatenated and read independently, are exactly M again with the
+//	    same compressed flags, each compressed payload readable by the same real decoder;
+//	(3) the sink saw end-of-stream exactly once, on its last event;
+//	(4) an END_STREAM that carries no message adds no message (to (1) or to (2)).
+//
+// Streams that are not a whole number of well-formed messages are outside the statement.
+func (e *ex) judgeEnd(dir int, viaData bool) (string, string) {
+	d := e.d[dir]
+	if !d.encKnown {
+		core.Count("oracle:skipped:unknown-encoding")
+		return "", ""
+	}
+	ms, rest := parseFrames(d.in)
+	if len(rest) != 0 {
+		core.Count("oracle:skipped:truncated-stream")
+		return "", ""
+	}
+	type pm struct {
+		flag  byte
+		plain []byte
+	}
+	var want []pm
+	for _, m := range ms {
+		if m.flag > 1 {
+			core.Count("oracle:skipped:bad-flag-byte")
+			return "", ""
+		}
+		p := m.payload
+		if m.flag == 1 {
+			var err error
+			if p, err = realDecode(d.enc, m.payload); err != nil {
+				core.Count("oracle:skipped:undecodable-input")
+				return "", ""
+			}
+		}
+		want = append(want, pm{m.flag, p})
+	}
+	core.Count("oracle:judged")
+	core.Count(fmt.Sprintf("oracle:judged:msgs=%d", min(len(want), 4)))
+
+	// the known defect F11b: END_STREAM on an empty DATA frame while no message is pending is
+	// turned into Message(nil, true) and re-emitted as one more, empty, message.
+	emptyEOS := viaData && d.lastEmpty
+	shown := d.shown
+	extraShown := false
+	if emptyEOS && len(shown) == len(want)+1 && len(shown[len(shown)-1].data) == 0 && shown[len(shown)-1].es {
+		extraShown = true
+		shown = shown[:len(shown)-1]
+	}
+	// (1)
+	if len(shown) != len(want) {
+		return fmt.Sprintf("processor was shown %d messages, the stream carries %d", len(shown), len(want)), "c11:shown-messages-differ"
+	}
+	for i, s := range shown {
+		if !bytes.Equal(s.data, want[i].plain) {
+			return fmt.Sprintf("message %d shown to the processor is %s, sent %s", i, showBytes(s.data), showBytes(want[i].plain)), "c11:shown-messages-differ"
+		}
+		last := i == len(shown)-1
+		if s.es && (!last || extraShown) {
+			return fmt.Sprintf("message %d of %d was shown with end-of-stream", i, len(shown)), "c11:eos-before-last-message"
+		}
+	}
+	// (2)
+	var out []byte
+	nEOS, lastIsEOS := 0, false
+	for i, s := range d.sink {
+		if i < d.sinkFrom {
+			continue
+		}
+		if s.kind == 'd' {
+			out = append(out, s.data...)
+		}
+		if s.es {
+			nEOS++
+			lastIsEOS = i == len(d.sink)-1
+		}
+	}
+	got, rest2 := parseFrames(out)
+	if len(rest2) != 0 {
+		return fmt.Sprintf("DATA reaching the destination is not a whole number of gRPC messages (%d stray bytes)", len(rest2)), "c11:sink-stream-malformed"
+	}
+	extraSink := false
+	if emptyEOS && len(got) == len(want)+1 {
+		g := got[len(got)-1]
+		p, err := g.payload, error(nil)
+		if g.flag == 1 {
+			p, err = realDecode(d.enc, g.payload)
+		}
+		if err == nil && len(p) == 0 {
+			extraSink = true
+			got = got[:len(got)-1]
+		}
+	}
+	if len(got) != len(want) {
+		return fmt.Sprintf("destination received %d messages, the stream carries %d", len(got), len(want)), "c11:sink-messages-differ"
+	}
+	for i, g := range got {
+		if g.flag != want[i].flag {
+			return fmt.Sprintf("message %d reached the destination with compressed flag %d, sent %d", i, g.flag, want[i].flag), "c11:sink-flag-differs"
+		}
+		p := g.payload
+		if g.flag == 1 {
+			var err error
+			if p, err = realDecode(d.enc, g.payload); err != nil {
+				return fmt.Sprintf("message %d reached the destination in a form the %s reader rejects: %v", i, d.enc, err), "c11:sink-encoding-differs"
+			}
+		}
+		if !bytes.Equal(p, want[i].plain) {
+			return fmt.Sprintf("message %d reached the destination as %s, sent %s", i, showBytes(p), showBytes(want[i].plain)), "c11:sink-messages-differ"
+		}
+	}
+	// (3)
+	if nEOS != 1 {
+		return fmt.Sprintf("destination saw end-of-stream %d times", nEOS), "c11:eos-count"
+	}
+	if !lastIsEOS {
+		return "destination saw end-of-stream before its last frame", "c11:eos-not-last"
+	}
+	// (4)
+	if extraShown || extraSink {
+		core.Count("f11b:pattern-seen")
+		if e.reportF11 {
+			core.Count("f11b:reported")
+			return fmt.Sprintf("END_STREAM on an empty DATA frame after %d message(s): processor shown an extra empty message=%v, destination received an extra empty message=%v",
+				len(want), extraShown, extraSink), "c11:empty-eos-extra-message"
+		}
+	}
+	return "", ""
+}
+
+func min(a, b int) int {
+	if a < b {
+		return a
+	}
+	return b
+}
